@@ -20,6 +20,14 @@ def check(pid, category, text, note, technique, design):
         technique=technique,
     )
 
+check("C01", "model_checking",
+      "Bounded-exhaustive exploration of programs built from an abstract Fortran model (declaration atoms per host scope; all sequences of "
+      "specification items x procedures x unit kind; executable look-alikes) crossed with every combination of <= d non-default spelling choices "
+      "of the renderer (d=1 quick, 2 thorough). The expected entity tree is computed from the abstract model, never from text; the real ford "
+      "Project (parse + correlate) must report exactly that tree and must not fail.",
+      "Trusted: the abstract model/renderer (mc/fmodel.py), the canonicaliser (mc/canon.py), the legality filter for generated declarations. Bounds: <=3 items, <=2 procedures, <=2 spelling deviations.",
+      "deviation-bounded exhaustive exploration (choice-trace DFS) against a reference model", "DESIGN.md 5/C01")
+
 check("C02", "model_checking",
       "Explicit-state exploration of the product machine (real FortranReader x independent reference free-form lexer) "
       "over all physical-line sequences up to a bound with exact-state de-duplication, plus the full product of token "
